@@ -5,6 +5,7 @@
 package main
 
 import (
+	"flag"
 	"fmt"
 	"os"
 	"strconv"
@@ -46,6 +47,11 @@ func (x *runner) exec(f []string) {
 			return []string{"ok"}
 		case "w":
 			return env.Write(u64(a[0]), uint32(u64(a[1])), vol.ParseContent(a[2:10]), false)
+		case "wf":
+			return env.Write(u64(a[0]), uint32(u64(a[1])), vol.ParseContent(a[2:10]), true)
+		case "stop":
+			env.Stopping()
+			return []string{"ok"}
 		case "d":
 			return env.Delete(u64(a[0]), uint32(u64(a[1])))
 		case "r":
@@ -238,6 +244,10 @@ func randContent(rng *hx.Rng, prev []*vol.Content, http bool) *vol.Content {
 
 func randomHistory(x *runner, rng *hx.Rng, kind, ttl string, nops int, http bool) {
 	x.exec([]string{"reset", kind, ttl})
+	batched := rng.Chance(1, 3)
+	if batched {
+		x.exec([]string{"stop"}) // fsync writes now take the batched worker path
+	}
 	nid := 2 + rng.Intn(5)
 	ids := make([]uint64, nid)
 	for i := range ids {
@@ -261,7 +271,11 @@ func randomHistory(x *runner, rng *hx.Rng, kind, ttl string, nops int, http bool
 		case r < 42:
 			c := randContent(rng, prev[id], http)
 			prev[id] = append(prev[id], c)
-			x.w(id, ck, c)
+			if batched && rng.Chance(2, 3) {
+				x.exec(append([]string{"wf", hx.U(id), hx.U(uint64(ck))}, vol.ContentArgs(c)...))
+			} else {
+				x.w(id, ck, c)
+			}
 		case r < 62:
 			x.op2("r", id, ck)
 		case r < 72:
@@ -325,6 +339,7 @@ type task func(x *runner, rng *hx.Rng)
 
 func main() {
 	a := hx.ParseArgs()
+	flag.Set("alsologtostderr", "false") // glog: files under TMPDIR only
 	tr = hx.NewTrace(a.Out)
 	defer tr.Close()
 	if a.Ops != "" {
@@ -354,7 +369,7 @@ func main() {
 			f := f
 			tasks = append(tasks, func(x *runner, rng *hx.Rng) { exhaustive(x, kind, alB, length, f) })
 		}
-		for i := 0; i < 8; i++ {
+		for i := 0; i < 4; i++ {
 			tasks = append(tasks, func(x *runner, rng *hx.Rng) {
 				sampled(x, rng, kind, alA, 4, a.N(120))
 				sampled(x, rng, kind, alA, 6, a.N(60))
@@ -362,7 +377,7 @@ func main() {
 			})
 		}
 	}
-	for i := 0; i < a.N(60); i++ {
+	for i := 0; i < a.N(40); i++ {
 		i := i
 		tasks = append(tasks, func(x *runner, rng *hx.Rng) {
 			kind := "mem"
@@ -376,7 +391,7 @@ func main() {
 			randomHistory(x, rng, kind, ttl, 50+rng.Intn(351), i%3 != 0)
 		})
 	}
-	for i := 0; i < a.N(16); i++ {
+	for i := 0; i < a.N(10); i++ {
 		tasks = append(tasks, func(x *runner, rng *hx.Rng) { sortedHistory(x, rng, 10+rng.Intn(60)) })
 	}
 
